@@ -382,3 +382,6 @@ def replay(prop, path):
 
 
 from .props_impl import *  # noqa: E402,F401,F403  (registers the property classes)
+from .props_grammar import *  # noqa: E402,F401,F403
+from .props_more import *  # noqa: E402,F401,F403
+from .props_cli import *  # noqa: E402,F401,F403
